@@ -687,6 +687,12 @@ def c07(ctx, res):
             name = "s%d" % ix if ext == "none" else "s%d.%s" % (ix, ext)
             stack = False
         _write(os.path.join(d, name), src)
+        if ix % 4 == 1 and name.endswith(".asm"):
+            # an object file of some other, valid program lies under the same stem (newer than the source): the
+            # three commands are asked about the text, not about what an earlier compile left behind
+            old = time.time() - 3600
+            os.utime(os.path.join(d, name), (old, old))
+            _write(os.path.join(d, "s%d.lc3" % ix), bytes.fromhex("3000e002f022f0250053005400000000"))
         f = ["-f", "stack"] if stack else []
         if stack == "front":
             g = ["-f", "stack"]
